@@ -25,7 +25,10 @@ def main():
             print(n, "patch does not apply:", r.stdout.strip()[:200], flush=True)
             continue
         try:
+            only = [x for x in os.environ.get("BENIGN_ONLY", "").split(",") if x]
             for p in sorted(meta.get("checks", {})):
+                if only and p not in only:
+                    continue
                 t0 = time.time()
                 rr = subprocess.run([os.path.join(VERIF, "check"), p, "quick"], cwd=VERIF, env=env, stdout=subprocess.PIPE, stderr=subprocess.STDOUT, text=True)
                 lines = [l[:300] for l in rr.stdout.splitlines() if l.startswith("VIOLATION") or "harness-crash" in l]
